@@ -12,7 +12,7 @@ import (
 // finders, the markup parsers and the two-pass logic. docspec = template id; the
 // members inside a template rotate with the PRNG of the docGen.
 
-const nRichDocs = 18
+const nRichDocs = 19
 
 func pagerHTML(g *docGen, style string, n, k int) string {
 	var sb strings.Builder
@@ -74,6 +74,9 @@ func schemaBody(g *docGen) string {
 // richDoc renders template id as a full page.
 func richDoc(id int, g *docGen) string {
 	r := g.rng
+	// words differ from document to document, so that two pages sharing a piece of markup
+	// (the same <title>, the same pager) still differ in everything else
+	g.tok = (id % 997) * 1000
 	var head, body strings.Builder
 	head.WriteString("<title>" + g.words(3) + " - " + g.words(2) + "</title>")
 	story := func(n int) string {
@@ -151,6 +154,9 @@ func richDoc(id int, g *docGen) string {
 	case 16: // ties: equally scored next / prev links to different pages
 		body.WriteString(`<div>` + story(3) + `</div><div><a href="?pg=5">Next</a> <a href="?pg=7">Next</a> <a href="?pg=9">next</a> <a href="?pg=0">Prev</a> <a href="?pg=11">Previous</a></div>` +
 			`<div><a href="/story/view/12">12</a> <a href="/story/view/13">13</a> <a href="?pg=12">12</a> <a href="?pg=13">13</a></div>`)
+	case 17: // many pages of one site share the <title>; only headings and body differ
+		return "<!DOCTYPE html><html><head><title>" + g.pick("Zq Daily", "Zq Daily", "The Zq Daily Blog: News") + "</title></head><body><div><h1>" +
+			g.words(5) + "</h1><h2>" + g.words(3) + "</h2>" + story(3) + "</div></body></html>"
 	default: // a random abstract document through the doc-family concretiser
 		forest := randomForest(r, 14)
 		return g.page(forest, docPlaces[r.Intn(len(docPlaces))])
